@@ -33,6 +33,15 @@ func wireSource(p *core.Prog, v ssa.Value) bool {
 		if core.IsPkgFunc(x, "encoding/binary", "ReadUvarint") || core.IsPkgFunc(x, "encoding/binary", "ReadVarint") {
 			return true
 		}
+		// byteOrder.UintNN(buf): an integer straight off the wire
+		if x.Call.IsInvoke() && strings.HasPrefix(x.Call.Method.Name(), "Uint") {
+			if rn := core.RecvNamed(x.Call.Method); rn != nil && rn.Pkg() != nil && rn.Pkg().Path() == "encoding/binary" {
+				return true
+			}
+			if core.NamedIs(x.Call.Value.Type(), "encoding/binary", "ByteOrder") {
+				return true
+			}
+		}
 		if f := x.Call.StaticCallee(); f != nil && p.InRepo(f) {
 			// unpacker: repo function that reads UintNN through a ByteOrder
 			is := false
@@ -226,6 +235,28 @@ func runC08(c *core.Ctx) {
 				}
 			}
 			c.Check(lower, "R1", name+"/lower-bound", p.InstrPos(in), "cannot be negative", "a wire-derived length can be negative when it reaches the "+what+" (runtime fault or empty phantom frame)")
+			// a sign-flipping conversion of a wire value (uint64 -> int64, possibly inside the unpacking helper):
+			// the value is negative for the top half of the unsigned range. It must be tested for that BEFORE
+			// any addition (an adjustment added first lifts a huge length field back into the valid range), or
+			// bounded above while still unsigned.
+			for v := range taintBack(sink) {
+				flips := flipSites(p, v)
+				if len(flips) == 0 {
+					continue
+				}
+				c.Instance("R1")
+				okFlip := boundedBelow(p, in, v, func(l ssa.Value) bool { k, ok := core.ConstInt(stripConv(l)); return ok && k >= 0 })
+				if !okFlip {
+					okFlip = true
+					for _, cv := range flips {
+						if !boundedAbove(p, cv, cv.X, func(ssa.Value) bool { return true }) {
+							okFlip = false
+						}
+					}
+				}
+				c.Check(okFlip, "R1", name+"/sign-before-arithmetic", p.InstrPos(in), "the converted wire value is tested for negativity before any arithmetic (or bounded while unsigned)",
+					"a wire value converted from unsigned to signed at "+p.InstrPos(flips[0])+" is not tested for negativity before arithmetic is applied to it: a length field in the top half of the unsigned range, plus a positive adjustment, passes the later range checks (phantom frame)")
+			}
 		})
 	}
 
@@ -924,4 +955,47 @@ func runC08ExactReader(c *core.Ctx) {
 	_ = errv
 	c.Check(remCond && okOrder, "R7", "exact-reader/maps-early-eof", p.InstrPos(mapAt), "EOF is mapped to io.ErrUnexpectedEOF when bytes are still owed after this read was counted", "the early-EOF test looks at the remaining count before this read was subtracted (or not at all): a complete last frame whose bytes arrive together with io.EOF is rejected, or a truncated one accepted")
 	c.Check(!condOnN, "R7", "exact-reader/eof-mapping-unconditional", p.InstrPos(mapAt), "the mapping does not depend on how many bytes came with the EOF", "source EOF is mapped to io.ErrUnexpectedEOF only for some byte counts of the final read: a reader that returns its last bytes together with io.EOF passes a truncated body off as complete")
+}
+
+// flipSites: v is (or is the result of a repository helper that returns) a conversion of a wire-derived
+// unsigned value to a signed type that is not wider: the conversions concerned.
+func flipSites(p *core.Prog, v ssa.Value) []*ssa.Convert {
+	isFlip := func(x ssa.Value) *ssa.Convert {
+		cv, ok := x.(*ssa.Convert)
+		if !ok {
+			return nil
+		}
+		if signedness(cv.Type()) == 1 && signedness(cv.X.Type()) == 2 && intBits(cv.Type()) <= intBits(cv.X.Type()) && wireSource(p, cv.X) {
+			return cv
+		}
+		return nil
+	}
+	if cv := isFlip(v); cv != nil {
+		return []*ssa.Convert{cv}
+	}
+	var out []*ssa.Convert
+	if _, isCall := v.(*ssa.Call); isCall {
+		for _, r := range throughReturns(p, v) {
+			// a named result assigned in several switch arms arrives as a φ
+			seen := map[ssa.Value]bool{}
+			var walk func(x ssa.Value, d int)
+			walk = func(x ssa.Value, d int) {
+				if seen[x] || d > 4 {
+					return
+				}
+				seen[x] = true
+				if cv := isFlip(x); cv != nil {
+					out = append(out, cv)
+					return
+				}
+				if phi, ok := x.(*ssa.Phi); ok {
+					for _, e := range phi.Edges {
+						walk(e, d+1)
+					}
+				}
+			}
+			walk(r.val, 0)
+		}
+	}
+	return out
 }
